@@ -133,7 +133,7 @@ func genOpts() amf0x.Opts {
 }
 
 func TestLibToSpecDecoder(t *testing.T) {
-	ev.Rapid(t, "lib-to-spec-decoder", 8000, 500000, func(t *rapid.T) {
+	ev.Rapid(t, "lib-to-spec-decoder", 8000, 4000000, func(t *rapid.T) {
 		v := amf0x.Gen(t, genOpts())
 		err := ev.Try(func() error { return checkLibToRef(v) })
 		cl, _ := classes(v)
@@ -149,7 +149,7 @@ func TestLibToSpecDecoder(t *testing.T) {
 }
 
 func TestSpecEncoderToLib(t *testing.T) {
-	ev.Rapid(t, "spec-encoder-to-lib", 8000, 500000, func(t *rapid.T) {
+	ev.Rapid(t, "spec-encoder-to-lib", 8000, 4000000, func(t *rapid.T) {
 		var c SCase
 		if rapid.IntRange(0, 3).Draw(t, "meta") == 0 {
 			// onMetaData: command name string followed by an ECMA array of numbers/strings/booleans
